@@ -122,6 +122,44 @@ fn half_oracle(out: &mut Out) {
     }
 }
 
+
+/// implementation-only oracle: nominal black / grey / white of every YUV format (neutral chroma) against the ideal
+/// limited-range value; the 10- and 16-bit formats miss white by the known gain error (finding F16)
+fn yuv_levels_oracle(out: &mut Out) {
+    // (format, luma bits stored in the top of how many bits, bytes per element layout handled per format)
+    let fmts: [(Format, u32); 10] = [(Format::P016, 16), (Format::AYUV, 8), (Format::YUY2, 8), (Format::UYVY, 8), (Format::NV12, 8), (Format::Y410, 10), (Format::Y210, 10), (Format::P010, 10), (Format::Y416, 16), (Format::Y216, 16)];
+    for (format, bits) in fmts {
+        let fi = id_of(format);
+        let (yoff, range, mid): (u32, u32, u32) = match bits { 8 => (16, 219, 128), 10 => (64, 876, 512), _ => (4096, 56064, 32768) };
+        for level in [0u32, range / 3, range] {
+            let y = yoff + level;
+            let (w, h) = (2u32, 2u32);
+            let n = surface_len(fi, w, h);
+            // build the surface: every luma sample y, every chroma sample mid
+            let data: Vec<u8> = match format {
+                Format::AYUV => (0..4).flat_map(|_| [mid as u8, mid as u8, y as u8, 255]).collect(),
+                Format::YUY2 => (0..2).flat_map(|_| [y as u8, mid as u8, y as u8, mid as u8]).collect(),
+                Format::UYVY => (0..2).flat_map(|_| [mid as u8, y as u8, mid as u8, y as u8]).collect(),
+                Format::NV12 => { let mut d = vec![y as u8; 4]; d.extend_from_slice(&[mid as u8, mid as u8]); d }
+                Format::Y410 => (0..4).flat_map(|_| (mid | (y << 10) | (mid << 20) | (3 << 30)).to_le_bytes()).collect(),
+                Format::Y210 => (0..2).flat_map(|_| [(y << 6) as u16, (mid << 6) as u16, (y << 6) as u16, (mid << 6) as u16].into_iter().flat_map(|v| v.to_le_bytes())).collect(),
+                Format::P010 => { let mut d: Vec<u8> = (0..4).flat_map(|_| ((y << 6) as u16).to_le_bytes()).collect(); d.extend(((mid << 6) as u16).to_le_bytes()); d.extend(((mid << 6) as u16).to_le_bytes()); d }
+                Format::P016 => { let mut d: Vec<u8> = (0..4).flat_map(|_| (y as u16).to_le_bytes()).collect(); d.extend((mid as u16).to_le_bytes()); d.extend((mid as u16).to_le_bytes()); d }
+                Format::Y416 => (0..4).flat_map(|_| [mid as u16, y as u16, mid as u16, 65535].into_iter().flat_map(|v| v.to_le_bytes())).collect(),
+                _ => (0..2).flat_map(|_| [y as u16, mid as u16, y as u16, mid as u16].into_iter().flat_map(|v| v.to_le_bytes())).collect(),
+            };
+            if data.len() != n { println!("IMPL-VIOLATION yuv oracle built {} bytes for {:?}, expected {n}", data.len(), format); continue; }
+            let Some(obs) = decode_native(fi, Precision::U8, w, h, &data, Some(Channels::Rgb)) else { println!("IMPL-VIOLATION yuv oracle: decode failed {:?}", format); continue; };
+            let want = ((level as f64 / range as f64) * 255.0).round() as i128;
+            out.count("yuv_levels_oracle");
+            if obs.iter().any(|&v| v != want) {
+                let tag = if bits > 8 && obs.iter().all(|&v| (v - want).abs() <= 1) { format!("F16: {:?}", format) } else { format!("yuv-level: {:?}", format) };
+                println!("IMPL-VIOLATION {tag} luma {y} with neutral chroma decodes to {:?} at U8, the ideal limited-range value is {want}", &obs[..3]);
+            }
+        }
+    }
+}
+
 pub fn run(out: &mut Out, tier: &str, seed: u64, corpus: Option<&str>) {
     let thorough = tier == "thorough";
     let mut rng = Rng::new(seed ^ 0xC04);
@@ -143,6 +181,7 @@ pub fn run(out: &mut Out, tier: &str, seed: u64, corpus: Option<&str>) {
     if tier == "replay" { return; }
     float_ops(out, thorough, &mut rng);
     half_oracle(out);
+    yuv_levels_oracle(out);
     let sp = f32_specials();
     // ---- pixel formats (ids 0..34): K pixels in one row
     for fi in 0..35usize {
